@@ -34,7 +34,10 @@ RULE = (
     "seeded time of day, every second of a day (thorough; strided in quick) on a seeded date, as datetime / 14-digit str / "
     "int.  Distinct: enumerations are distinct by construction (lists de-duplicated against the sweeps); Hypothesis cases by "
     "hash and counted as non-trivial only outside the swept ranges.  Non-trivial: integers needing >= 2 septets; floats "
-    "with f > 0; coordinates/times other than 0 / midnight."
+    "with f > 0; coordinates/times other than 0 / midnight.  mode_flags: the boundary lists, strided sweeps, all p=1 "
+    "fractions and the structured p=2/3 fractions x all integer parts, strided p=2 / p=3 fractions, strided coordinates and "
+    "date-times, plus Hypothesis cases, each evaluated with MBXML.DEBUG = True / after from_bytes(malformed, debug=True) "
+    "raised / after from_bytes(valid, debug=True) / (coordinates, times) inside from_bytes(debug=True)."
 )
 ASSUMPTIONS = [
     "canonical forms per vp/refs/mbxml_ref.py: uintvar = shortest base-128 big-endian with continuation bit 0x80; sintvar = "
@@ -203,9 +206,12 @@ REPORT_DOC_ID = 0x0D  # Triggered-Location-Report, table implied by the id
 POINT_2D, INFO_TIME = 0x66, 0x34
 
 
+_PARSE_DEBUG = False  # set (and restored) by oracle_mode_flags only: carrier documents are parsed with debug=True
+
+
 def _xml_of_single_token(M, token: bytes) -> str:
     buf = bytes([REPORT_DOC_ID, len(token)]) + token
-    _, docs = call(M.from_bytes, buf)
+    _, docs = call(M.from_bytes, buf, _PARSE_DEBUG)
     if len(docs) != 1 or len(docs[0].parts) != 1:
         raise Fail("carrier_document_parses_to_one_token", [len(docs), [len(d.parts) for d in docs]], [1, [1]])
     _, xml = call(docs[0].as_xml)
@@ -352,7 +358,7 @@ def drv_uintvar(ctx: Ctx, sub: SubCheck):
 
     def hyp(shard, t: Tally):
         ctx.hypothesis(
-            sub.name, strat, oracle_uintvar, ctx.pick(1300, 6000), tally=t, shard=shard,
+            sub.name, strat, oracle_uintvar, ctx.pick(1100, 5500), tally=t, shard=shard,
             record=lambda c, tt: tt.case(sub.name, key=c, nontrivial=(c["v"] >= limit and c["v"] not in sp), cls="random:" + uint_class(c["v"])),
         )
 
@@ -381,7 +387,7 @@ def drv_sintvar(ctx: Ctx, sub: SubCheck):
 
     def hyp(shard, t: Tally):
         ctx.hypothesis(
-            sub.name, strat, oracle_sintvar, ctx.pick(1300, 6000), tally=t, shard=shard,
+            sub.name, strat, oracle_sintvar, ctx.pick(1100, 5500), tally=t, shard=shard,
             record=lambda c, tt: tt.case(sub.name, key=c, nontrivial=(abs(c["v"]) >= limit and abs(c["v"]) not in sp), cls="random:" + sint_class(c["v"])),
         )
 
@@ -485,7 +491,7 @@ def _drv_float(ctx: Ctx, sub: SubCheck, signed: bool):
 
     def hyp(shard, t: Tally):
         ctx.hypothesis(
-            sub.name, strat, oracle, ctx.pick(1300, 6000), tally=t, shard=shard,
+            sub.name, strat, oracle, ctx.pick(1100, 5500), tally=t, shard=shard,
             record=lambda c, tt: tt.case(sub.name, key=c, nontrivial=(c["f"] > 0 and not covered(c["i"], c["f"], c["p"])), cls="random:" + _float_cls(c, signed)),
         )
 
@@ -594,6 +600,174 @@ def drv_infotime(ctx: Ctx, sub: SubCheck):
     ctx.shards(hyp, list(range(ctx.pick(16, 80))))
 
 
+# ---------------------------------------------------------------------------------------------- mode flags (history)
+#
+# MBXML has one public mode switch: the class attribute MBXML.DEBUG, also set by MBXML.from_bytes(data, debug=True) for the
+# duration of a parse - and left on when such a parse raises (the library resets it on the success path only).  Diagnostics
+# must not change results: every reader / writer clause of this property is evaluated again
+#   debug_flag_set                with MBXML.DEBUG = True
+#   after_failed_debug_parse      after MBXML.from_bytes(<malformed>, debug=True) raised
+#   after_successful_debug_parse  after MBXML.from_bytes(<valid>, debug=True) returned
+#   inside_debug_parse            (latlon / infotime) the carrier document is parsed with debug=True
+# stdout is silenced by the harness.  The flag is restored to its default in a finally block, so cases stay independent.
+
+MODES = ["debug_flag_set", "after_failed_debug_parse", "after_successful_debug_parse"]
+XML_MODES = ["inside_debug_parse", "after_failed_debug_parse", "debug_flag_set"]
+MALFORMED = ["0705", "07022204", "0d0370", "0d046c8080", "ff", "0d0a6900000000000000008380", "07"]
+WELLFORMED = ["0d1a22047fffffff69486109950ad0ecd28338156c000856a270400a", "071A22042468ACE0341F4DBC778051118ECD8D118AD47B00636C0006", "0F0622042468ACE0"]
+
+
+def _base_oracles():
+    return {"uintvar": oracle_uintvar, "sintvar": oracle_sintvar, "ufloatvar": oracle_ufloat, "sfloatvar": oracle_sfloat, "latlon": oracle_latlon, "infotime": oracle_infotime}
+
+
+def oracle_mode_flags(case):
+    """case = {sub, mode, k, case}: the clauses of sub-check `sub` on `case`, evaluated in the given mode (k selects the
+    malformed / well-formed document used to get there)"""
+    global _PARSE_DEBUG
+    M = MB()
+    base = _base_oracles()[case["sub"]]
+    mode, k = case["mode"], case.get("k", 0)
+    default = False
+    try:
+        M.DEBUG = default
+        if mode == "debug_flag_set":
+            M.DEBUG = True
+        elif mode == "after_failed_debug_parse":
+            call(M.from_bytes, bytes.fromhex(MALFORMED[k % len(MALFORMED)]), True, allowed=(Exception,))
+        elif mode == "after_successful_debug_parse":
+            call(M.from_bytes, bytes.fromhex(WELLFORMED[k % len(WELLFORMED)]), True, allowed=(Exception,))
+        elif mode == "inside_debug_parse":
+            _PARSE_DEBUG = True
+        else:
+            raise ValueError(mode)
+        try:
+            base(case["case"])
+        except Fail as f:
+            raise Fail(f.clause + "__with_mode_flag", f.observed, f.expected, klass=mode + (":" + f.klass if f.klass else ""))
+    finally:
+        _PARSE_DEBUG = False
+        M.DEBUG = default
+
+
+def _mode_cases(ctx: Ctx):
+    """deterministic part: boundary / strided cases of every sub-check x modes"""
+    out = []
+    k = 0
+
+    def add(sub, case, modes, all_modes: bool):
+        nonlocal k
+        for m in (modes if all_modes else [modes[k % len(modes)]]):
+            k += 1
+            out.append({"sub": sub, "mode": m, "k": k, "case": case})
+
+    rng = ctx.rng("mode-specials")
+    sp = unsigned_specials(rng, 5)
+    for v in sp:
+        lead, trail = _lt(v)
+        add("uintvar", {"v": v, "lead": lead, "trail": trail}, MODES, True)
+        if v <= S_MAX:
+            for sgn in (1, -1):
+                add("sintvar", {"v": sgn * v, "lead": lead, "trail": trail}, MODES, True)
+    for v in range(0, 2**18, ctx.pick(37, 5)):
+        lead, trail = _lt(v)
+        add("uintvar", {"v": v, "lead": lead, "trail": trail}, MODES, False)
+        add("sintvar", {"v": v - 2**17, "lead": lead, "trail": trail}, MODES, False)
+    for signed in (False, True):
+        sub = "sfloatvar" if signed else "ufloatvar"
+        for i in INT_PARTS:
+            if signed and i > S_MAX:
+                continue
+            for p in (1, 2, 3):
+                fr = range(128) if p == 1 else _structured_fractions(p)
+                for f in fr:
+                    for neg in ((False, True) if signed else (False,)):
+                        if neg and i == 0 and f == 0:
+                            continue
+                        c = {"i": i, "f": f, "p": p, "trail": TRAILS[(i + f + p) % len(TRAILS)]}
+                        if signed:
+                            c["neg"] = neg
+                        add(sub, c, MODES, p >= 2)
+        for i in (0, 160):
+            for f in range(0, 128**2, ctx.pick(3, 1)):
+                c = {"i": i, "f": f, "p": 2, "trail": TRAILS[f % len(TRAILS)]}
+                if signed:
+                    c["neg"] = bool(f & 1)
+                add(sub, c, MODES, False)
+            for f in range(0, 128**3, ctx.pick(1021, 61)):
+                c = {"i": i, "f": f, "p": 3, "trail": TRAILS[f % len(TRAILS)]}
+                if signed:
+                    c["neg"] = bool(f & 1)
+                add(sub, c, MODES, False)
+    n = ctx.pick(1500, 20000)
+    for j in range(n):
+        add("latlon", {"lat": (j * (LAT_MAX // n) + 7 * j) % (LAT_MAX + 1), "lon": (j * (LON_MAX // n) + 11 * j) % (LON_MAX + 1)}, XML_MODES, False)
+    for a in EDGE_LAT:
+        add("latlon", {"lat": a, "lon": EDGE_LON[a % len(EDGE_LON)]}, XML_MODES, True)
+    for j in range(n):
+        add("infotime", _dt_case((j * 7919) % N_DAYS, (j * 104729) % 86400, FORMS[j % 3]), XML_MODES, False)
+    for day in BOUNDARY_DAYS:
+        for sec in BOUNDARY_SECS:
+            add("infotime", _dt_case(day, sec, FORMS[(day + sec) % 3]), XML_MODES, True)
+    return out
+
+
+def _mode_strategy():
+    from hypothesis import strategies as st
+
+    trail = st.one_of(st.sampled_from(TRAILS), st.binary(max_size=4).map(bytes.hex))
+    septet = st.one_of(st.sampled_from([0, 0, 1, 0x40, 0x7F]), st.integers(0, 127))
+    uint = st.tuples(st_septet_value(U_MAX), st.sampled_from(LEADS), trail).map(lambda t: ("uintvar", {"v": t[0], "lead": t[1], "trail": t[2]}))
+    sint = st.tuples(st_septet_value(S_MAX), st.booleans(), st.sampled_from(LEADS), trail).map(lambda t: ("sintvar", {"v": -t[0] if t[1] else t[0], "lead": t[2], "trail": t[3]}))
+
+    def mkf(signed):
+        def f(t):
+            i, p, fs, neg, tr = t
+            fr = 0
+            for s_ in fs[:p]:
+                fr = (fr << 7) | s_
+            c = {"i": i, "f": fr, "p": p, "trail": tr}
+            if signed:
+                c["neg"] = bool(neg and (i or fr))
+            return ("sfloatvar" if signed else "ufloatvar", c)
+
+        return f
+
+    ufl = st.tuples(st_septet_value(U_MAX), st.sampled_from([1, 2, 2, 3, 3]), st.lists(septet, min_size=3, max_size=3), st.booleans(), trail).map(mkf(False))
+    sfl = st.tuples(st_septet_value(S_MAX), st.sampled_from([1, 2, 2, 3, 3]), st.lists(septet, min_size=3, max_size=3), st.booleans(), trail).map(mkf(True))
+    ll = st.tuples(st.integers(0, LAT_MAX), st.integers(0, LON_MAX)).map(lambda t: ("latlon", {"lat": t[0], "lon": t[1]}))
+    it = st.tuples(st.integers(0, N_DAYS - 1), st.integers(0, 86399), st.sampled_from(FORMS)).map(lambda t: ("infotime", _dt_case(*t)))
+    plain = st.tuples(st.one_of(uint, sint, ufl, ufl, sfl, sfl), st.sampled_from(MODES), st.integers(0, 20))
+    xml = st.tuples(st.one_of(ll, it), st.sampled_from(XML_MODES), st.integers(0, 20))
+    return st.one_of(plain, plain, plain, xml).map(lambda t: {"sub": t[0][0], "mode": t[1], "k": t[2], "case": t[0][1]})
+
+
+def drv_mode_flags(ctx: Ctx, sub: SubCheck):
+    cases = _mode_cases(ctx)
+
+    def nt(c):
+        b = c["case"]
+        return b.get("f", 0) > 0 or abs(b.get("v", 0)) >= 128 or c["sub"] in ("latlon", "infotime")
+
+    def work(ch, t: Tally):
+        for c in ch:
+            ctx.run_case(sub.name, oracle_mode_flags, c, t)
+            t.case(sub.name, nontrivial=nt(c), cls=f"{c['mode']}:{c['sub']}" + (f":p{c['case']['p']}" if "p" in c["case"] else ""))
+        if ch:
+            t.sample(sub.name, ch[len(ch) // 2])
+
+    ctx.shards(work, [cases[i::64] for i in range(64)])
+    ctx.tally.extra["mode_flag_deterministic_cases"] = len(cases)
+    strat = _mode_strategy()
+
+    def hyp(shard, t: Tally):
+        ctx.hypothesis(sub.name, strat, oracle_mode_flags, ctx.pick(500, 3000), tally=t, shard=shard,
+                       record=lambda c, tt: tt.case(sub.name, key=c, nontrivial=nt(c), cls=f"random:{c['mode']}:{c['sub']}"))
+
+    warm_hypothesis_constants()
+    ctx.shards(hyp, list(range(ctx.pick(16, 80))))
+
+
 SUBCHECKS = [
     SubCheck("uintvar", oracle_uintvar, drv_uintvar, "write_uintvar == canonical shortest; read_uintvar returns the value and consumes exactly the encoding"),
     SubCheck("sintvar", oracle_sintvar, drv_sintvar, "write_sintvar == canonical (sign in bit 6 of first septet); read_sintvar inverse"),
@@ -601,6 +775,7 @@ SUBCHECKS = [
     SubCheck("sfloatvar", oracle_sfloat, drv_sfloat, "same for signed floats, incl. negative fractions with zero integer part"),
     SubCheck("latlon", oracle_latlon, drv_latlon, "write_latitude/longitude -> point-2d token -> from_bytes -> as_xml gives back the 6-decimal input"),
     SubCheck("infotime", oracle_infotime, drv_infotime, "write_infotime (datetime/str/int) -> info-time token -> as_xml gives back the 14-digit input"),
+    SubCheck("mode_flags", oracle_mode_flags, drv_mode_flags, "all of the above again with MBXML.DEBUG on, after a failed / successful from_bytes(debug=True), and inside a debug parse"),
 ]
 
 
